@@ -2,6 +2,7 @@ package main
 
 import (
 	"go/token"
+	"go/types"
 	"strings"
 
 	"golang.org/x/tools/go/ssa"
@@ -129,6 +130,126 @@ func c40(c *Ctx) {
 		}
 		c.Expect(n == 1, nil, ev, "one-candidate-append", "expected one candidate collection site")
 	})
+	c.Ob("detection-criteria", "R7", "both algorithms run when configured; success-rate ejects on rate < mean - stdev*factor/1000, failure-percentage on pct > threshold, and an endpoint meeting the criterion reaches the max-ejection test; candidates are exactly those with at least the request volume; eject/uneject act on every subchannel of the endpoint; an un-ejected subchannel forwards health updates to its listener", 12, func() {
+		it := c.fn(odp, ob+".intervalTimerAlgorithm")
+		for _, a := range []struct{ fn, cfgF string }{{"successRateAlgorithm", "SuccessRateEjection"}, {"failurePercentageAlgorithm", "FailurePercentageEjection"}} {
+			call := one(c, a.fn+" call", callsIn(it, Callee(odp, ob+"."+a.fn)))
+			fCfg := c.field(odp, "LBConfig", a.cfgF)
+			c.MustFact(call, a.fn+":only-when-configured", NotNil(FieldLoad(fCfg)))
+			c.MustPass(a.fn+":always-when-configured", pathQuery{Fn: it, AtEntry: true, Barrier: func(in ssa.Instruction) bool { return in == ssa.Instruction(call) }, Target: isReturn,
+				EdgeBlock: func(from, to *ssa.BasicBlock) bool {
+					_, ok := hasFact(edgeFacts(from, to), IsNil(FieldLoad(fCfg)))
+					return ok
+				}}, nil)
+		}
+		c.Expect(len(callsInTree(it, Callee(odp, ob+".unejectEndpoint"))) == 1, nil, it, "interval-pass-unejects", "the interval pass never un-ejects")
+		fS := c.field(odp, "bucket", "numSuccesses")
+		fF := c.field(odp, "bucket", "numFailures")
+		// criteria
+		type crit struct {
+			fn    string
+			holds FM // criterion met
+			not   FM // criterion not met
+		}
+		isFloat := func(v ssa.Value) bool {
+			b, ok := v.Type().Underlying().(*types.Basic)
+			return ok && b.Info()&types.IsFloat != 0
+		}
+		rate := func(v ssa.Value) bool { return isFloat(v) && DataDep(FieldLoad(fS))(v) && !DataDep(CallRes(Callee(odp, ob+".meanAndStdDev"), -1))(v) }
+		req := func(v ssa.Value) bool {
+			b, ok := v.(*ssa.BinOp)
+			return ok && b.Op == token.SUB && DataDep(FieldLoad(c.field(odp, "SuccessRateEjection", "StdevFactor")))(b.Y) && isFloat(v)
+		}
+		pct := func(v ssa.Value) bool {
+			b, ok := v.(*ssa.BinOp)
+			return ok && b.Op == token.MUL && ConstNum(100)(b.Y) && DataDep(FieldLoad(fF))(b.X)
+		}
+		thr := func(v ssa.Value) bool {
+			cv, ok := v.(*ssa.Convert)
+			return ok && FieldLoad(c.field(odp, "FailurePercentageEjection", "Threshold"))(cv.X)
+		}
+		for _, k := range []crit{
+			{"successRateAlgorithm", Cmp(rate, token.LSS, req), Cmp(rate, token.GEQ, req)},
+			{"failurePercentageAlgorithm", Cmp(pct, token.GTR, thr), Cmp(pct, token.LEQ, thr)},
+		} {
+			f := c.fn(odp, ob+"."+k.fn)
+			ej := one(c, "ejectEndpoint in "+k.fn, callsInTree(f, Callee(odp, ob+".ejectEndpoint")))
+			c.MustFact(ej, k.fn+":ejects-only-on-its-criterion", k.holds)
+			// an endpoint meeting the criterion reaches the max-ejection test: it may be skipped only where the criterion is known not to hold
+			var test, adv ssa.Instruction
+			for _, b := range f.Blocks {
+				for _, in := range b.Instrs {
+					if bo, ok := in.(*ssa.BinOp); ok {
+						if bo.Op == token.GEQ && DataDep(FieldLoad(fNum))(bo.X) {
+							test = in
+						}
+						if isRangeIndex(bo) {
+							if _, isIA := firstIndexUse(bo); isIA {
+								adv = in
+							}
+						}
+					}
+				}
+			}
+			if c.Expect(test != nil && adv != nil, ej, f, k.fn+":loop-shape", "candidate loop / max-ejection test not found") {
+				var start ssa.Instruction
+				for _, b := range f.Blocks {
+					for _, in := range b.Instrs {
+						if ia, ok := in.(*ssa.IndexAddr); ok && ia.Index == adv.(ssa.Value) {
+							start = in
+						}
+					}
+				}
+				if c.Expect(start != nil, ej, f, k.fn+":candidate-visit", "candidate visit not found") {
+					c.MustPass(k.fn+":criterion-met-reaches-ejection-test", pathQuery{Fn: f, Starts: []ssa.Instruction{start}, Barrier: func(in ssa.Instruction) bool { return in == test }, Target: func(in ssa.Instruction) bool { return in == adv || isReturn(in) },
+						EdgeBlock: func(from, to *ssa.BasicBlock) bool {
+							_, ok := hasFact(edgeFacts(from, to), k.not)
+							return ok
+						}}, start)
+				}
+			}
+		}
+		// candidates: skipped only below the request volume
+		ev := c.fn(odp, ob+".endpointsWithAtLeastRequestVolume")
+		for _, g := range ev.AnonFuncs {
+			var app ssa.Instruction
+			for _, in := range instrsWhere(g, func(in ssa.Instruction) bool {
+				call, ok := in.(*ssa.Call)
+				return ok && BuiltinCall("append")(&call.Call)
+			}) {
+				app = in
+			}
+			if app == nil {
+				continue
+			}
+			vol := BinOpV(token.ADD, FieldLoad(fS), FieldLoad(fF))
+			c.MustPass("every-endpoint-with-the-request-volume-is-a-candidate", pathQuery{Fn: g, AtEntry: true, Barrier: func(in ssa.Instruction) bool { return in == app }, Target: func(in ssa.Instruction) bool {
+				r, ok := in.(*ssa.Return)
+				return ok && ConstBool(true)(r.Results[0])
+			}, EdgeBlock: func(from, to *ssa.BasicBlock) bool {
+				_, ok := hasFact(edgeFacts(from, to), Cmp(vol, token.LSS, AnyV))
+				return ok
+			}}, nil)
+		}
+		// eject / uneject act on every subchannel wrapper of the endpoint
+		for _, pr := range []struct{ fn, m string }{{"ejectEndpoint", "eject"}, {"unejectEndpoint", "uneject"}} {
+			f := c.fn(odp, ob+"."+pr.fn)
+			call := one(c, pr.m+" call in "+pr.fn, callsInTree(f, Callee(odp, "subConnWrapper."+pr.m)))
+			c.ArgIs(call, 0, pr.fn+":every-subchannel-of-the-endpoint", RangeValueOf(FieldLoad(c.field(odp, "endpointInfo", "sws"))))
+		}
+		uh := c.fn(odp, "subConnWrapper.updateSubConnHealthState")
+		fHL := c.field(odp, "subConnWrapper", "healthListener")
+		fEj := c.field(odp, "subConnWrapper", "ejected")
+		hl := one(c, "health listener call", callsIn(uh, FieldCall(fHL)))
+		c.ArgIs(hl, 0, "forwards-the-reported-health-state", ParamV("scs"))
+		c.MustPass("health-forwarded-unless-ejected-or-no-listener", pathQuery{Fn: uh, AtEntry: true, Barrier: func(in ssa.Instruction) bool { return in == ssa.Instruction(hl) }, Target: isReturn,
+			EdgeBlock: func(from, to *ssa.BasicBlock) bool {
+				fs := edgeFacts(from, to)
+				_, a := hasFact(fs, Truth(FieldLoad(fEj), true))
+				_, b := hasFact(fs, IsNil(FieldLoad(fHL)))
+				return a || b
+			}}, nil)
+	})
 	c.Ob("uneject-time", "R5", "interval pass: an ejected endpoint is un-ejected when now is after timestamp + min(base x multiplier, max(base, max_ejection_time)); a not-ejected endpoint's multiplier decays by one", 4, func() {
 		f := c.fn(odp, ob+".intervalTimerAlgorithm")
 		fBase := c.field(odp, "LBConfig", "BaseEjectionTime")
@@ -229,4 +350,17 @@ func instrsWhere2(fn *ssa.Function, pred func(ssa.Instruction) bool) []ssa.Instr
 		out = append(out, instrsWhere2(a, pred)...)
 	}
 	return out
+}
+
+// firstIndexUse: the IndexAddr that uses v as its index, if any.
+func firstIndexUse(v ssa.Value) (*ssa.IndexAddr, bool) {
+	if v.Referrers() == nil {
+		return nil, false
+	}
+	for _, r := range *v.Referrers() {
+		if ia, ok := r.(*ssa.IndexAddr); ok && ia.Index == v {
+			return ia, true
+		}
+	}
+	return nil, false
 }
